@@ -394,11 +394,17 @@ class Run:
         from . import backends
         return backends.cvc5_check(solver.to_smt2())
 
-    def explore(self, fn):
+    def explore(self, fn, work=None, frontier=None):
+        """depth-first exploration by re-execution.  `work`: decision prefixes to start from (default: the
+        root).  `frontier`: stop as soon as that many prefixes are pending and return them (work sharing)"""
         global CUR
-        work = [[]]
+        work = [list(w) for w in work] if work is not None else [[]]
+        self.pending = []
         while work:
-            prefix = work.pop()
+            if frontier is not None and len(work) >= frontier:
+                self.pending = work
+                return
+            prefix = work.pop(0) if frontier is not None else work.pop()
             if self.paths >= MAX_PATHS:
                 self.undecided_reason = "path budget %d exhausted" % MAX_PATHS
                 break
